@@ -128,6 +128,23 @@ theorem addChannelBetweenNodes_eq (g : Graph) (scid : Nat) (c : ChanInfo) (v : O
   unfold Impl.addChannelBetweenNodes Gossip.addChannelBetweenNodes
   rw [gen_replaceExisting]
 
+theorem getL_of_mem {α : Type} {l : List (Nat × α)} (hs : KeysLt l) {k : Nat} {v : α} (h : (k, v) ∈ l) :
+    getL l k = some v := by
+  induction l with
+  | nil => cases h
+  | cons hd t ih =>
+    obtain ⟨k', v'⟩ := hd
+    have hp := List.pairwise_cons.1 hs
+    rcases List.mem_cons.1 h with heq | hin
+    · cases heq; simp [getL]
+    · have hlt : k' < k := hp.1 (k, v) hin
+      have hne : k ≠ k' := by omega
+      simp only [getL, hne, if_false]
+      exact ih hp.2 hin
+
+theorem SMap.get_of_mem {α : Type} (m : SMap α) {k : Nat} {v : α} (h : (k, v) ∈ m.l) : m.get k = some v :=
+  getL_of_mem m.sorted h
+
 /-! ### signature checks: the generated (signature, key) list is the BOLT 7 pairing, complete and exact -/
 
 /-- the check list translated from verify_channel_announcement is exactly: every signature field of the
